@@ -106,17 +106,24 @@ std::string showBytes(const QByteArray &b, bool isNull) { return isNull ? "<null
 // a case that does not finish is a failure of the property (a log call or the stop blocks for ever), not a harness problem:
 // the watchdog records the running case and ends the process with the "falsified" status
 std::atomic<long long> g_caseDeadlineMs { 0 };
+std::atomic<long> g_progress { 0 }; // bumped by every log call and every sink invocation
 void startWatchdog()
 {
     static bool started = false;
     if (started) return;
     started = true;
     std::thread([] {
+        long lastProgress = -1;
+        long long lastChange = 0;
         for (;;) {
             std::this_thread::sleep_for(std::chrono::milliseconds(500));
             const long long d = g_caseDeadlineMs.load();
-            if (d > 0 && std::chrono::duration_cast<std::chrono::milliseconds>(std::chrono::steady_clock::now().time_since_epoch()).count() > d) {
-                failCase(currentCase(), "the case did not finish within 90 s: a log call, the worker or the stop of the logger thread blocks for ever (e.g. a log call made by a sink on the logger thread deadlocks)");
+            const long long nowMs = std::chrono::duration_cast<std::chrono::milliseconds>(std::chrono::steady_clock::now().time_since_epoch()).count();
+            const long pr = g_progress.load();
+            if (pr != lastProgress || d == 0) { lastProgress = pr; lastChange = nowMs; }
+            // no log call returned and no message was delivered for 60 s, and the case is older than 90 s
+            if (d > 0 && nowMs > d && nowMs - lastChange > 60000) {
+                failCase(currentCase(), "the case made no progress for 60 s: a log call, the worker or the stop of the logger thread blocks for ever (e.g. a log call made by a sink on the logger thread deadlocks)");
                 dumpStats(false);
                 fprintf(stderr, "WATCHDOG: case did not finish\n");
                 _exit(1);
@@ -160,6 +167,7 @@ std::string run(const QJsonObject &c)
     std::vector<QThread *> producerQThreads{ size_t(P), nullptr };
 
     auto sink = FunctionHandlerPtr::create([&](LogMessage &m) {
+        g_progress++;
         thread_local static int depth = 0;
         struct Depth { int &d; Depth(int &x) : d(x) { ++d; } ~Depth() { --d; } } guard(depth);
         if (depth > 1) sinkReentered++;
@@ -279,6 +287,7 @@ std::string run(const QJsonObject &c)
                     t.ticketBegin = ticket++;
                     outer.process(m);
                     t.ticketEnd = ticket++;
+                    g_progress++;
                 }
                 if (f) { memset(f, 'X', strlen(f)); if (!scratch) free(f); }
                 if (fn) { memset(fn, 'X', strlen(fn)); if (!scratch) free(fn); }
@@ -305,10 +314,24 @@ std::string run(const QJsonObject &c)
     std::vector<std::future<void>> futs;
     for (int p = 0; p < P; p++) futs.push_back(std::async(std::launch::async, producer, p));
     go = true;
+    // "blocked" = no log call begins or returns for 20 s although producers are still inside their loops (progress is read off the
+    // ticket counter, so a slow machine is never mistaken for a blocked call)
     bool blocked = false;
-    const auto deadline = std::chrono::steady_clock::now() + std::chrono::seconds(20);
-    for (auto &f : futs)
-        if (f.wait_until(deadline) != std::future_status::ready) blocked = true;
+    {
+        long lastTicket = -1;
+        auto lastProgress = std::chrono::steady_clock::now();
+        for (;;) {
+            bool allReady = true;
+            for (auto &f : futs)
+                if (f.wait_for(std::chrono::milliseconds(0)) != std::future_status::ready) allReady = false;
+            if (allReady) break;
+            const long t = ticket.load();
+            const auto now = std::chrono::steady_clock::now();
+            if (t != lastTicket) { lastTicket = t; lastProgress = now; }
+            else if (now - lastProgress > std::chrono::seconds(20)) { blocked = true; break; }
+            std::this_thread::sleep_for(std::chrono::milliseconds(1));
+        }
+    }
     int queuedAtGateOpening = 0;
     {
         std::lock_guard<std::mutex> lk(seenMutex);
